@@ -6,7 +6,7 @@ from tools.vlib import _strip_comments
 import tools.vlib as V
 
 PID = "C11"
-READY = False
+READY = True
 MANIFEST = {
     "level_text": "Lean 4 theorems about a model of Node::store_chunk / fetch_chunk / receive_chunk / export_chunk_record and the CLI's "
                   "decrypt_chunk_with_manifest, composed from the already verified models of Sha256 (C08), ChaCha20 + CryptoManager (C09) and "
@@ -80,6 +80,7 @@ DEFAULTS = {
     "receiveDecryptNonceArg": "manifest.nonce", "receiveCombineThresholdArg": "manifest.threshold", "receivePutDataRole": "ciphertext",
     "receiveReturnRole": "decrypted",
     "fetchDecryptIdRole": "id", "fetchNonceRole": "record", "fetchDataRole": "record",
+    "receiveCombineFailure": "nullopt", "fetchCombineFailure": "nullopt", "cliCombineFailure": "throw",
     "cliSteps": ["validate", "combine", "decrypt", "digest", "compare", "return"],
     "cliHashRole": "decrypted", "cliCompareRole": "digest!=manifest.chunk_hash", "cliDecryptIdArg": "manifest.chunk_id",
     "cliDecryptNonceArg": "manifest.nonce", "cliCombineThresholdArg": "manifest.threshold", "cliReturnRole": "decrypted",
@@ -99,6 +100,8 @@ DOCS = {
                        "parameter), the guard before the effects, the id / nonce / threshold expressions, what is stored and returned",
     "fetchDecryptIdRole": "`Node::fetch_chunk`: chunk-id argument of decrypt_with_key (\"id\" = the parameter), nonce / data source (\"record\")",
     "cliSteps": "main.cpp `decrypt_chunk_with_manifest`: recognised statements in source order, and the same roles",
+    "receiveCombineFailure": "what happens when `Shamir::combine` throws: \"nullopt\" = caught and turned into `return std::nullopt`, "
+                             "\"throw\" = the exception leaves the function (not pinned by any theorem: both mean 'not accepted')",
 }
 
 
@@ -196,6 +199,11 @@ def _last_value_return(body: str) -> tuple[str, int]:
     return best
 
 
+def _combine_failure(body: str) -> str:
+    m = re.search(r"try\s*\{[^{}]*Shamir::combine[^{}]*\}\s*catch\s*\([^)]*\)\s*\{\s*return\s+std::nullopt\s*;", body, flags=re.S)
+    return "nullopt" if m else "throw"
+
+
 def _verify_like(body: str, ct_name: str, ct_exprs: list[str], prefix: str, vals: dict, with_effects: bool):
     """receive_chunk / decrypt_chunk_with_manifest: combine → decrypt → digest → compare → (effects) → return"""
     dargs, dpos = _call_args(body, r"CryptoManager::decrypt_with_key")
@@ -240,6 +248,7 @@ def _verify_like(body: str, ct_name: str, ct_exprs: list[str], prefix: str, vals
     vals[prefix + "DecryptNonceArg"] = _norm(dargs[3])
     vals[prefix + "CombineThresholdArg"] = _norm(cargs[1]) if len(cargs) > 1 else "other:"
     vals[prefix + "ReturnRole"] = role(ret)
+    vals[prefix + "CombineFailure"] = _combine_failure(body)
     if with_effects:
         pargs, _ = _call_args(body, r"chunk_store_\.put")
         vals[prefix + "PutDataRole"] = role(pargs[1]) if len(pargs) > 1 else "other:"
@@ -315,6 +324,7 @@ def extract_tables() -> tuple[dict, list[str]]:
         nm = re.search(r"\b" + re.escape(nv) + r"\s*[{(]\s*(\w+)->nonce\s*[})]", body)
         vals["fetchDataRole"] = "record" if cm and cm.group(1) == "record" else "other:" + ctv
         vals["fetchNonceRole"] = "record" if nm and nm.group(1) == "record" else "other:" + nv
+        vals["fetchCombineFailure"] = _combine_failure(body)
 
     def cli():
         main = _strip_comments((REPO / MAIN).read_text(errors="replace"))
@@ -650,8 +660,8 @@ def spec() -> Spec:
         generate=generate,
         extract=extract,
         nontrivial=nontrivial,
-        budget={"quick": 260, "thorough": 5000},
-        search_budget={"quick": 700, "thorough": 8000},
+        budget={"quick": 300, "thorough": 5000},
+        search_budget={"quick": 800, "thorough": 8000},
         post=post,
         per_case_timeout=60.0,
         batch=400,
